@@ -221,7 +221,17 @@ def run_reconfigured(ctx):
         def f(env):
             env.function_extensions[name] = saved[name]
         return f
+    def replace_with(name, make_fn):
+        def f(env):
+            saved[name] = env.function_extensions[name]
+            env.function_extensions[name] = make_fn()
+        return f
+
+    from jsonpath.function_extensions import Count
+
     scenarios = [
+        ("function-replaced-under-its-own-name-by-one-with-other-argument-types", jsonpath.JSONPathEnvironment, replace_with("length", Count), restore("length"),
+         ["$[?length('abc') == 3]", "$[?length(value(@.a)) == 1]", "$.a[?length(\"x\") > 0]"]),
         ("type-checks-switched-on", lambda: jsonpath.JSONPathEnvironment(well_typed=False), lambda e: setattr(e, "well_typed", True), None,
          ["$[?count(@..*)]", "$[?length(@.a)]", "$[?@.* == 1]", "$.a[?length(@.*) > 1]", "$[?match(@.a, 'x') == true]", "$[?count('abc') == 3]", "$[?count(@.a[?length(@.b)]) > 0]"]),
         ("limits-narrowed-on-the-instance", jsonpath.JSONPathEnvironment, narrow, widen, ["$.b[7]", "$.b[-6]", "$.b[1:9]", "$.b[::6]", "$[?@[6]]", "$..[0, 6]", "$[?count(@[-7:]) > 0]"]),
